@@ -316,6 +316,18 @@ func validateSummaryOptions(o *SummaryOptions) error {
 	if o.MaxAge < 0 {
 		return fmt.Errorf("summary max_age %v is negative", o.MaxAge)
 	}
+	if o.MaxAge > 0 {
+		// The client library divides max_age into age_buckets streams. With a
+		// stream duration that rounds down to zero the summary never finishes
+		// rotating its streams: the first observation or scrape hangs forever.
+		ageBuckets := o.AgeBuckets
+		if ageBuckets == 0 {
+			ageBuckets = prometheus.DefAgeBuckets
+		}
+		if o.MaxAge/time.Duration(ageBuckets) == 0 {
+			return fmt.Errorf("summary max_age %v is too short for %d age buckets", o.MaxAge, ageBuckets)
+		}
+	}
 	return nil
 }
 
